@@ -605,7 +605,7 @@ theorem session_args_accounted : Gen.Send.sendersSessionArgs = [
     ("icmp4SendPacket", ["HostAddr4_MAC"]), ("icmp6SendPacket", ["HostAddr4_MAC"]),
     ("ICMP4SendEchoRequest", ["HostAddr4_MAC"]), ("ICMP6SendEchoRequest", ["HostAddr4_MAC"]),
     ("ICMP6SendNeighborAdvertisement", ["HostAddr4_MAC"]), ("ICMP6SendNeighbourSolicitation", ["HostAddr4_MAC"]),
-    ("ICMP6SendRouterSolicitation", ["HostAddr4_MAC", "HostLLA_Addr", "IP6AllRoutersAddr_MAC", "IP6AllRoutersAddr_IP", "IP6AllRoutersAddr_Port"]),
+    ("ICMP6SendRouterSolicitation", ["HostAddr4_MAC", "HostLLA_Addr"]),
     ("arp_spoofer_AnnounceTo", ["HostAddr4_MAC"]), ("arp_spoofer_Probe", ["HostAddr4_MAC"]), ("arp_spoofer_Reply", ["HostAddr4_MAC"]),
     ("arp_spoofer_Request", ["HostAddr4_MAC", "HostAddr4_IP", "HostAddr4_Port"]),
     ("arp_spoofer_RequestTo", ["HostAddr4_MAC", "HostAddr4_IP", "HostAddr4_Port"])] := by decide
